@@ -56,7 +56,7 @@ def profiles(thorough):
             {"id": "w3", "keys": ["k1"], "auth": {"k1": 150}, "mode": "stream", "sync": True, "late": False},
         ],
         "streamers": ["s1", "s2", "s3"], "sleepy_lossy": ["s2", "s3"], "stalled_mixed": ["s2", "s3"],
-        "subs": [["k1"], ["k2"], ["k1", "k2"]], "opensubs": [["k1", "k2"], ["k1"]],
+        "subs": [["k1"], ["k2"], ["k1", "k2"], []], "opensubs": [["k1", "k2"], ["k1"]],
         "maxseq": 4, "minseq": 2, "maxresub": 2,
     }
     p2 = {
@@ -70,15 +70,25 @@ def profiles(thorough):
         "writers": [
             {"id": "w1", "keys": ["k3", "k4", "k5"], "auth": {"k3": 200, "k4": 100, "k5": 200}, "mode": "persist", "sync": True, "late": False},
             {"id": "w2", "keys": ["k3", "k4"], "auth": {"k3": 100, "k4": 200}, "mode": "stream", "sync": True, "late": False},
-            {"id": "w3", "keys": ["k5"], "auth": {"k5": 100}, "mode": "stream", "sync": True, "late": False},
+            # stream-only, on the persisted data channel k5 ALONE, never its holder (auto-commit off: with it
+            # on, the commit of a data-only writer needs an index sample exactly at its Start)
+            {"id": "w3", "keys": ["k5"], "auth": {"k5": 100}, "mode": "stream", "sync": True, "late": False,
+             "no_autocommit": True},
             {"id": "w4", "keys": ["k1"], "auth": {"k1": 255}, "mode": "stream", "sync": False, "late": False},
         ],
         "close_after": {"w1": ["w3"]},
         "streamers": ["s1", "s2"], "sleepy_lossy": ["s2"],
-        "subs": [["k4", "k5"], ["k1", "k3"], ["k1", "k3", "k4", "k5"]], "opensubs": [["k1", "k3", "k4", "k5"], ["k3", "k4", "k5"]],
+        "subs": [["k4", "k5"], ["k1", "k3"], ["k1", "k3", "k4", "k5"], []], "opensubs": [["k1", "k3", "k4", "k5"], ["k3", "k4", "k5"]],
         "maxseq": 3, "minseq": 2, "maxresub": 2,
     }
-    ps = [p1, p2]
+    # the same group with the modes swapped: the INDEX holder that lacks the data channel k4 is stream-only,
+    # the k4 holder persists (and takes the whole group over, persisting, once the index holder closes)
+    p2b = copy.deepcopy(p2)
+    p2b["name"] = "split2"
+    p2b["writers"][0]["mode"], p2b["writers"][1]["mode"] = "stream", "persist"
+    p2b["only_modes"] = ("complete",) if not thorough else ("complete", "lossy")
+    p2b["n_quick"] = 40
+    ps = [p1, p2, p2b]
     if thorough:
         p3 = copy.deepcopy(p1)
         # frames of >= 128 series take Frame.filter's copying path instead of the bit mask
@@ -207,7 +217,7 @@ def design(ctx, thorough):
     go("qb", design_cast(["w1"], ["s1", "s2"], [["k1"], ["k2"]], k12, 2, 0), Ready=tla_set(["s1"]),
        CloseModes=tla_set(["graceful"]))
     # cancel-mode close and orphaning by DBClose
-    go("qo", design_cast(["w1"], ["s1"], [["k2"]], k12, 2, 1), Ready=tla_set(["s1"]), AllowOrphan="TRUE")
+    go("qo", design_cast(["w1"], ["s1"], [["k2"], []], k12, 2, 1), Ready=tla_set(["s1"]), AllowOrphan="TRUE")
     # a writer with more authority opens (gate by gate) while the other one is writing
     go("ql", design_cast(["w1", "w2"], ["s1"], [["k1"]], k12, 2 if thorough else 1, 0, late=("w1",)), Ready=tla_set(["s1"]),
        CloseModes=tla_set(["graceful"]))
@@ -316,6 +326,8 @@ def decorate(script, rnd, mode, p=None):
     for o in script:
         op = {"a": o["a"], "p": o["p"], "ks": sorted(o["ks"]), "m": o["m"], "fence": False,
               "wait": rnd.random() < 0.45, "delay_us": rnd.choice([0, 0, 30, 200, 1500])}
+        if o["a"] == "ssub" and not o["ks"]:
+            op["m"] = rnd.choice(["nil", "empty"])     # a request with a nil / an empty channel list
         if o["a"] == "write" and p and not [w for w in p["writers"] if w["id"] == o["p"]][0]["sync"] and rnd.random() < 0.7:
             op["wait"], op["delay_us"] = False, 0     # bursts: several requests of one writer in flight
             burst = True
@@ -336,6 +348,39 @@ def decorate(script, rnd, mode, p=None):
                 op["delay_us"] = rnd.choice([0, 200, 3000, 12000, 25000])
         ops.append(op)
     return ops
+
+
+def forced_scripts(p):
+    """Directed scenarios every run executes (complete configuration): a streamer re-subscribes to NO
+    channel (once as a nil, once as an empty list) while a second streamer keeps its subscription; the
+    holder of a channel both were subscribed to keeps writing; then it subscribes again."""
+    W = [w for w in p["writers"] if not w["late"]]
+    best = None
+    for w in W:
+        for k in w["keys"]:
+            if all(o["id"] == w["id"] or k not in o["keys"] or o["auth"].get(k, 0) < w["auth"].get(k, 0) for o in p["writers"]):
+                best = best or (w["id"], k)
+    if not best or len(p["streamers"]) < 2:
+        return []
+    w, k = best
+    s1, s2 = p["streamers"][:2]
+    sub = sorted(set([k] + [x["id"] for x in p["keys"]][:2]))
+
+    def op(a, pr, ks=(), m="", fence=False):
+        return {"a": a, "p": pr, "ks": list(ks), "m": m, "fence": fence, "wait": True, "delay_us": 0}
+    # writers are closed dependencies first (close_after)
+    order, ca = [], p.get("close_after", {})
+    for x in sorted(W, key=lambda x: x["id"] in ca):
+        order.append(x["id"])
+    out = []
+    for how in ("nil", "empty"):
+        out.append([
+            op("sopen", s1, sub), op("sopen", s2, sub), op("write", w),
+            op("ssub", s1, [], how, fence=True), op("write", w), op("write", w),
+            op("ssub", s1, sub, fence=True), op("write", w),
+            op("sclose", s1, m="graceful", fence=True), op("sclose", s2, m="graceful"),
+        ] + [op("wclose", x) for x in order] + [op("dbclose", "db", fence=True)])
+    return out
 
 
 def harness_profile(p, mode):
@@ -638,13 +683,14 @@ def blocked_signature(mode, res):
 
 
 # ------------------------------------------------------------------ run
-def one_config(ctx, p, mode, scripts, rnd, tag, race, cov):
+def one_config(ctx, p, mode, scripts, rnd, tag, race, cov, forced=()):
     import time
-    scenarios = [{"i": i, "script": decorate(s, rnd, mode, p)} for i, s in enumerate(scripts)]
+    scenarios = [{"i": i, "script": sc} for i, sc in enumerate(
+        list(forced) + [decorate(s, rnd, mode, p) for s in scripts])]
     t_h = time.time()
     results = run_harness(ctx, p, mode, scenarios, tag, race=race)
     t_h = time.time() - t_h
-    items, errors, blocked = [], [], []
+    items, errors, blocked, err_items = [], [], [], []
     for scn in scenarios:
         r = results.get(scn["i"])
         if r is None:
@@ -663,7 +709,10 @@ def one_config(ctx, p, mode, scripts, rnd, tag, race, cov):
             raise vlib.Inconclusive("the harness process was starved (heartbeat stalled) in %s/%s scenario %d: %s" % (
                 p["name"], mode, scn["i"], r.get("stuck")))
         elif r["status"] == "error":
+            # an error the scripts do not expect: recorded, the other scenarios go on; what this one
+            # logged is still looked at by the log-level oracle (its trace is not a clean run of the model)
             errors.append((scn, r))
+            err_items.append((scn, r["events"]))
         elif r["status"] == "blocked":
             blocked.append((scn, r))
     if mode == "mixed" and len(items) < max(3, len(scenarios) // 3) and not blocked:
@@ -680,7 +729,7 @@ def one_config(ctx, p, mode, scripts, rnd, tag, race, cov):
     t_v = time.time()
     # the log-level oracle first: scenarios it already finds contradictory are confirmed by TLC one by
     # one (a failing tree is reported quickly); otherwise everything goes through TLC
-    suspects = [it for it in items if classify(p, mode, it[1], len(it[1]) - 1)[0]]
+    suspects = [it for it in err_items + items if classify(p, mode, it[1], len(it[1]) - 1)[0]]
     if suspects:
         stats, rejected = validate(ctx, p, mode, suspects[:3], tag + "_sus", chunk=1)
         if not rejected:
@@ -709,15 +758,15 @@ def one_config(ctx, p, mode, scripts, rnd, tag, race, cov):
             "events": len(evs)})
     # how many scenarios of this configuration show each class (the log-level oracle needs no TLC)
     seen_classes = {}
-    for scn, evs in items:
+    for scn, evs in items + err_items:
         c = classify(p, mode, evs, len(evs) - 1)[0]
         if c:
             seen_classes[c] = seen_classes.get(c, 0) + 1
     handle_rejections(ctx, p, mode, rejected, race, seen_classes)
-    if errors and not ctx.violations:
-        scn, r = errors[0]
-        raise vlib.Inconclusive("cesium returned an error the scripts do not expect (%s/%s scenario %d): %s" % (
-            p["name"], mode, scn["i"], r.get("detail")))
+    for scn, r in errors[:3]:
+        # a violation anywhere in the run beats this; otherwise the run ends inconclusive (run())
+        cov.setdefault("errors", []).append("%s/%s scenario %d: %s" % (p["name"], mode, scn["i"], (r.get("detail") or "")[:400]))
+    cov["error_scenarios"] = cov.get("error_scenarios", 0) + len(errors)
 
 
 def rerun(ctx, p, mode, scn, n, tag, race):
@@ -755,7 +804,7 @@ def handle_rejections(ctx, p, mode, rejected, race, seen_classes=None):
         items = []
         if not hits:
             res = rerun(ctx, p, mode, scn, NREP, "repro", race)
-            items = [(scn, r["events"]) for r in res.values() if r["status"] == "ok"]
+            items = [(scn, r["events"]) for r in res.values() if r["status"] in ("ok", "error")]
             # the statement-level oracle alone decides most classes from the log; TLC only where it does not
             hits = sum(1 for it in items if classify(p, mode, it[1], len(it[1]) - 1)[0] == cls)
         for k, it in enumerate(items if not hits else []):
@@ -828,9 +877,11 @@ def run(ctx):
         scripts = gen_scripts(ctx, p, n, "g_" + p["name"])
         if len(scripts) < n // 3:
             raise vlib.Inconclusive("only %d scripts generated for cast %s" % (len(scripts), p["name"]))
-        scripts = vlib.sample(scripts, n, ctx.seed)
+        scripts = vlib.sample(scripts, n if thorough else p.get("n_quick", n), ctx.seed)
         for mode in ("complete", "lossy", "mixed"):
             if mode == "mixed" and not p.get("stalled_mixed"):
+                continue
+            if mode not in p.get("only_modes", ("complete", "lossy", "mixed")):
                 continue
             sc = scripts
             if mode == "mixed":
@@ -839,11 +890,15 @@ def run(ctx):
                       and any(o["a"] == "sopen" and o["p"] not in p["stalled_mixed"] for o in h)]
                 sc = sc[:n_mixed]
             if not ctx.violations:   # a violating tree is reported at the first configuration that shows it
-                one_config(ctx, p, mode, sc, rnd, "%s_%s" % (p["name"], mode[0]), thorough, cov)
+                one_config(ctx, p, mode, sc, rnd, "%s_%s" % (p["name"], mode[0]), thorough, cov,
+                           forced=forced_scripts(p) if mode == "complete" else ())
     unreproduced(ctx)
+    if cov.get("errors") and not ctx.violations:
+        raise vlib.Inconclusive("cesium returned errors the scripts do not expect in %d scenario(s) and nothing else "
+                                "contradicted the statement: %s" % (cov["error_scenarios"], "; ".join(cov["errors"][:2])))
     probe(ctx, profiles(False)[0], cov)
     m = cov["mech"]
-    need = ["writes", "recv", "sopen", "ssub", "sclose_graceful", "sclose_cancel", "quiesce", "unauthorized_writes", "stall"]
+    need = ["writes", "recv", "sopen", "ssub", "sclose_graceful", "sclose_cancel", "quiesce", "unauthorized_writes", "stall", "ssub_none"]
     missing = [k for k in need if not m.get(k)]
     if missing and not ctx.violations:
         raise vlib.Inconclusive("mechanisms never exercised: %s" % missing)
